@@ -3,7 +3,7 @@
 From Coq Require Import String List NArith Bool.
 From Coq Require Import Lia.
 From BFG Require Import Base.Chars Path.PathAlg Path.PathAlgProofs Path.PathAlgMk Path.PathAlgRt Path.PathAlgNested
-                        Path.PathAlgWf Path.PathAlgOrder Path.PathAlgTrees.
+                        Path.PathAlgWf Path.PathAlgOrder Path.PathAlgTrees Path.PathAlgOps.
 Import ListNotations.
 
 (* Whatever string, root (plain or a base path) and flags the constructor accepts, the stored components
@@ -171,7 +171,42 @@ Theorem C12_uniquetrees_fsroot_refuted : exists a b,
 Proof. eexists. eexists. vm_compute. repeat split. Qed.
 Print Assumptions C12_uniquetrees_fsroot_refuted.
 
+(* parent / basename / append: for a well-formed path with a non-empty suffix whose LAST component is not of the
+   form x:... (finding basename-drive-like) the parent exists, is a well-formed directory path under the same root
+   with the last component removed, and appending the basename gives the path back exactly, except for the
+   directory flag: append derives it from the appended string, so the result is flagged a non-directory (the
+   file-system root, whose parent is itself, stays a directory) *)
+Theorem C12_parent_append : forall p,
+  wfp p -> is_nil (suffix_str p) = false -> nodrive [last (p_comps p) []] ->
+  exists q, parent p = Some q /\ wfp q /\ p_dir q = true /\ p_root q = p_root p /\
+            p_comps q = removelast (p_comps p) /\
+            append q (basename p) = Some (set_dir p (is_nil (p_comps p))).
+Proof. exact parent_append. Qed.
+Print Assumptions C12_parent_append.
+
+(* the same, as Python equality sees it *)
+Theorem C12_parent_append_eq : forall p,
+  wfp p -> is_nil (suffix_str p) = false -> nodrive [last (p_comps p) []] ->
+  exists q r, parent p = Some q /\ append q (basename p) = Some r /\ path_eqb r p = true.
+Proof. exact parent_append_eq. Qed.
+Print Assumptions C12_parent_append_eq.
+
+(* the guard on the last component is needed *)
+Theorem C12_parent_append_basename_refuted : exists p q,
+  mk (STR "x/c:d") (RRoot Srcdir) None None = Some p /\ wfp p /\ parent p = Some q /\ append q (basename p) = None.
+Proof.
+  eexists. eexists. split; [vm_compute; reflexivity|]. split; [|vm_compute; auto].
+  constructor; cbn; try reflexivity; try lia; try discriminate.
+  all: try (apply normalb_ok; vm_compute; reflexivity).
+  all: try (intros _; vm_compute; discriminate).
+Qed.
+Print Assumptions C12_parent_append_basename_refuted.
+
 (* non-vacuity *)
+Example ex_parent_append : exists p q,
+  mk (STR "a/b.c/") (RRoot Srcdir) None None = Some p /\ parent p = Some q /\ suffix_str q = STR "a" /\
+  basename p = STR "b.c" /\ p_dir p = true /\ append q (basename p) = Some (set_dir p false).
+Proof. do 2 eexists. vm_compute. repeat split. Qed.
 Example ex_uniquetrees : exists a b c d,
   mk (STR "x/foo/a") (RRoot Srcdir) None None = Some a /\ mk (STR "x/foo.c") (RRoot Srcdir) None None = Some b /\
   mk (STR "x/foo") (RRoot Srcdir) None None = Some c /\ mk (STR "x/foo") (RRoot Builddir) None None = Some d /\
